@@ -826,3 +826,95 @@ Lemma scanners_read_tokens segs be :
   endpoint_params (clean_path (render_ep segs)) = ph_names segs /\
   backend_outputs (clean_path (render be)) = ph_names be.
 Proof. intros H1 H2. split; [apply ep_clean, H1|rewrite bo_clean; apply bo_tokens, H2]. Qed.
+
+(* ---- the order of the declared parameters does not matter to Init ---- *)
+Lemma ambiguous_iff l : ambiguous l = true <->
+  exists p q, In p l /\ In q l /\ p <> q /\ config_cap p = config_cap q.
+Proof.
+  split.
+  - induction l as [|x r IH]; [discriminate|]. cbn [ambiguous]. intros H.
+    apply orb_true_iff in H. destruct H as [H|H].
+    + apply existsb_exists in H. destruct H as [q [Hq E]]. apply andb_true_iff in E. destruct E as [E1 E2].
+      apply negb_true_iff, str_eqb_neq in E1. apply str_eqb_eq in E2.
+      exists x, q. repeat split; auto; [left; reflexivity|right; exact Hq].
+    + destruct (IH H) as [p [q [Hp [Hq [Hne Hc]]]]]. exists p, q. repeat split; auto; right; assumption.
+  - intros [p [q [Hp [Hq [Hne Hc]]]]]. destruct (ambiguous l) eqn:E; [reflexivity|].
+    exfalso. apply Hne. exact (amb_inj l E p q Hp Hq Hc).
+Qed.
+
+Lemma ambiguous_perm l l' : Permutation l l' -> ambiguous l = ambiguous l'.
+Proof.
+  intros Hp. destruct (ambiguous l) eqn:E.
+  - symmetry. apply ambiguous_iff. apply ambiguous_iff in E. destruct E as [p [q [H1 [H2 H3]]]].
+    exists p, q. repeat split; try tauto; eapply Permutation_in; eauto.
+  - destruct (ambiguous l') eqn:E'; [|reflexivity].
+    apply ambiguous_iff in E'. destruct E' as [p [q [H1 [H2 H3]]]].
+    assert (ambiguous l = true); [|congruence]. apply ambiguous_iff.
+    exists p, q. repeat split; try tauto; eapply Permutation_in; try apply Permutation_sym; eauto.
+Qed.
+
+Lemma dedup_In x l : In x (dedup l) <-> In x l.
+Proof.
+  induction l as [|y r IH]; [simpl; tauto|]. cbn [dedup].
+  destruct (str_mem y r) eqn:E.
+  - rewrite IH. apply str_mem_In in E. split; [right; assumption|intros [<-|H]; assumption].
+  - cbn [In]. rewrite IH. tauto.
+Qed.
+
+Lemma dedup_NoDup l : NoDup (dedup l).
+Proof.
+  induction l as [|y r IH]; [constructor|]. cbn [dedup].
+  destruct (str_mem y r) eqn:E; [exact IH|].
+  constructor; [|exact IH]. rewrite dedup_In. apply str_mem_false. exact E.
+Qed.
+
+Lemma dedup_length_perm l l' : Permutation l l' -> List.length (dedup l) = List.length (dedup l').
+Proof.
+  intros Hp. apply Permutation_length. apply NoDup_Permutation; try apply dedup_NoDup.
+  intros x. rewrite !dedup_In. split; intros H; eapply Permutation_in; try apply Permutation_sym; eauto.
+Qed.
+
+Lemma rewrite_loop_mem ins ins' : (forall o, str_mem o ins = str_mem o ins') ->
+  forall outs pat ks, rewrite_loop ins outs pat ks = rewrite_loop ins' outs pat ks.
+Proof.
+  intros H. induction outs as [|o r IH]; intros pat ks; [reflexivity|].
+  cbn [rewrite_loop]. rewrite (H o). destruct (negb (seq_ref o) && negb (str_mem o ins')); [reflexivity|apply IH].
+Qed.
+
+(* what Init decides from the declared parameters, once the endpoint text is valid *)
+Definition init_params (ins : list string) (be : string) : init_result :=
+  if ambiguous ins then Rejected RAmbiguous else
+  let pat := clean_path be in
+  let '(outs, size) := unique_output (backend_outputs pat) in
+  if (List.length (dedup ins) <? size)%nat then Rejected RWrongNumber
+  else rewrite_loop ins outs pat [].
+
+Lemma init_factors ep be :
+  init ep be = if invalid_endpoint (clean_path ep) then Rejected RInvalidEndpoint
+               else init_params (endpoint_params (clean_path ep)) be.
+Proof. reflexivity. Qed.
+
+Lemma init_params_perm ins ins' be : Permutation ins ins' -> init_params ins be = init_params ins' be.
+Proof.
+  intros Hp. unfold init_params. rewrite (ambiguous_perm _ _ Hp).
+  destruct (ambiguous ins'); [reflexivity|].
+  destruct (unique_output (backend_outputs (clean_path be))) as [outs size].
+  rewrite (dedup_length_perm _ _ Hp).
+  destruct (List.length (dedup ins') <? size)%nat; [reflexivity|].
+  apply rewrite_loop_mem. intros o.
+  destruct (str_mem o ins) eqn:E, (str_mem o ins') eqn:E'; try reflexivity.
+  - apply str_mem_In in E. apply (Permutation_in _ Hp), str_mem_In in E. congruence.
+  - apply str_mem_In in E'. apply (Permutation_in _ (Permutation_sym Hp)), str_mem_In in E'. congruence.
+Qed.
+
+Lemma ambiguous_never_served a segs be vals p q :
+  forallb seg_ok segs = true ->
+  In p (ph_names segs) -> In q (ph_names segs) -> p <> q -> config_cap p = config_cap q ->
+  serve a segs be vals = ORejected.
+Proof.
+  intros Hsegs Hp Hq Hne Hc. unfold serve. rewrite init_factors, (ep_clean segs Hsegs).
+  destruct (invalid_endpoint (clean_path (render_ep segs))); [reflexivity|].
+  unfold init_params.
+  assert (E : ambiguous (ph_names segs) = true) by (apply ambiguous_iff; exists p, q; auto).
+  rewrite E. reflexivity.
+Qed.
